@@ -1,4 +1,5 @@
 """Per-property configuration of /verif/check."""
+import re
 import sexp
 
 TRUSTED_BASE = [
@@ -43,10 +44,12 @@ CONFIG = {
             # spans of errors produced by built-in conversions on parsed source text
             {"name": "c14", "n": {"quick": 10000, "thorough": 200000}, "trivial": lambda case, ans: not ans.startswith("(err")},
             {"name": "c13", "n": {"quick": 40000, "thorough": 40000}, "trivial": lambda case, ans: not ans.startswith("(err")},
+            # spans of every leaf reported by derived receivers (mistakes at several depths)
+            {"name": "c02", "n": {"quick": 12000, "thorough": 240000}, "trivial": lambda case, ans: not ans.startswith("(err")},
         ],
         "rule": "error histories with with_span applied at random nodes (bundles and leaves) in random order; non-trivial = at least one with_span in the history; distinct by case text",
         "assumptions": ["spans are byte ranges of tokens parsed from source text (proc-macro2 span-locations)"],
-        "partial": "part 1 (error algebra) only so far",
+        "partial": "error algebra proved in full; span placement by built-in conversions, maps and derived receivers is established by the models' explicit with_span calls (mirrored site by site) and the correspondence streams, with the per-leaf containment judged on the implementation's answers",
     },
     "C04": {
         "lean_modules": ["Darling.Props.C04"],
@@ -79,6 +82,53 @@ CONFIG = {
         ],
         "rule": "c10: exhaustive — every single field option, every ordered pair of the 12 field option spellings in both attribute splits (thorough: every ordered triple in all 4 splits) x 6 derives, plus 33 hand-picked declarations for the body rules (two / three flatten fields, word rules, from_word rules, attrs without forward_attrs, FromAttributes without attributes, shape words incl. repeated prefixes and multi-segment words, unions, empty enums, n-tuple structs and variants, forwarded-field options); c06: the random chaos stream; compared: impl vs diagnostics, every message and span; distinct by case text",
         "assumptions": ["syn's verdict on string literals inside options and strsim scores are oracle rows"],
+    },
+    "C08": {
+        "lean_modules": ["Darling.Props.C08"],
+        "streams": [
+            {"name": "c08", "n": {"quick": 6000, "thorough": 120000},
+             "trivial": lambda case, ans: False,
+             # all partitions of one item sequence must give the same answer (positions aside)
+             "group_judge": (lambda cid: (re.match(r"p-(\w+)-\d+$", cid) or [None, None])[1],
+                             lambda ans: re.sub(r"\(sp \d+ \d+\)", "sp", ans),
+                             # a declared attribute whose body is not a list of items (e.g. a keyword
+                             # used as a name) is rejected as a whole: its tokens are not "items"
+                             lambda case: '(bad "' in case)},
+            {"name": "c16", "n": {"quick": 3000, "thorough": 60000}, "trivial": lambda case, ans: False},
+            {"name": "c07o", "n": {"quick": 3000, "thorough": 60000}, "trivial": lambda case, ans: False},
+        ],
+        "rule": "c08: compiled corpus of 80 element-level receivers (18 FromField, 14 FromVariant, 8 FromTypeParam, 30 FromDeriveInput, 10 FromAttributes; 1..3 attribute names, forward_attrs absent / bare / list / empty, attrs field plain or with a `with` function, magic fields, supports, from_ident, flatten, multiple, defaults) x item sequences (valid, or with 1..3 mistakes) x 4 partitions each (all items in one attribute; random contiguous splits over random declared names) with bare / empty declared attributes and foreign attributes (doc, cfg, derive, unparseable token bodies, multi-segment paths) interleaved — the foreign attributes of a group keep their relative order so that the forwarded list is the same; every member is compared with the model and the members of a group are compared with each other on the implementation's answers (group judge); c16 / c07o: single elements with valid / malformed attributes; distinct by case text",
+        "assumptions": ["'the same items' are the parsed items (syn's NestedMeta values): the model starts after syn's parser; see known finding F16 for the one place where syn's parse of an item depends on its position", "field converters are parameters"],
+    },
+    "C16": {
+        "lean_modules": ["Darling.Props.C16"],
+        "streams": [
+            {"name": "c16", "n": {"quick": 6000, "thorough": 120000}, "trivial": lambda case, ans: not ans.startswith("(ok")},
+            {"name": "c16m", "n": {"quick": 4000, "thorough": 80000}, "trivial": lambda case, ans: not ans.startswith("(err")},
+            {"name": "c16p", "n": {"quick": 3000, "thorough": 60000}, "trivial": lambda case, ans: False},
+        ],
+        "rule": "c16: the 80 element-level receivers x generated input elements: derive inputs with every struct style with 0..6 fields, enums with 0..6 variants of mixed style and discriminants, unions (mistake mode), generics with lifetimes / types / consts / defaults / where-clauses, 5 visibility forms, 9 field types, type params with bounds and defaults; receivers declare any subset of the magic fields, `data: ast::Data<V, F>` / `fields: ast::Fields<F>` with V, F in {(), syn types, other corpus receivers} or a `with` converter; the implementation's value is serialised member by member (tokens) and compared with the model's mirror of the input; c16m: the same with mistakes inside nested fields / variants (all failures reported, located); c16p: Fields::<syn::Field>::try_from(..).to_token_stream() against the model's rendering of the original fields (white space removed); non-trivial = Ok value (c16) / Err (c16m)",
+        "assumptions": ["tokens are compared as printed by proc-macro2; entry converters are parameters of the theorems"],
+        "partial": "magic members wrapped in SpannedValue / WithOriginal / Result and `ast::Generics<..>` mirrors are not in the corpus; spans of magic members are not compared",
+    },
+    "C07": {
+        "lean_modules": ["Darling.Props.C07", "Darling.Props.C07Universe", "Darling.Props.C07Outer"],
+        "streams": [
+            {"name": "c07o", "n": {"quick": 6000, "thorough": 120000}, "trivial": lambda case, ans: False},
+            {"name": "c16m", "n": {"quick": 3000, "thorough": 60000}, "trivial": lambda case, ans: False},
+            {"name": "c02", "n": {"quick": 6000, "thorough": 120000}, "trivial": lambda case, ans: False},
+            {"name": "c12", "n": {"quick": 20000, "thorough": 200000}, "trivial": lambda case, ans: False},
+            {"name": "c13", "n": {"quick": 40000, "thorough": 40000}, "trivial": lambda case, ans: False},
+            {"name": "c11", "n": {"quick": 4000, "thorough": 60000}, "trivial": lambda case, ans: False},
+            {"name": "c14", "n": {"quick": 10000, "thorough": 100000}, "trivial": lambda case, ans: False},
+            {"name": "c18recv", "n": {"quick": 2000, "thorough": 100000}, "trivial": lambda case, ans: False},
+            {"name": "c09", "n": {"quick": 4000, "thorough": 50000}, "trivial": lambda case, ans: False},
+        ],
+        # every entry point runs under catch_unwind: a panic is a violation whether or not the model agrees
+        "impl_judge": lambda case, ans: "the entry point panicked" if ans.startswith("(panic") else None,
+        "rule": "c07o: the 80 element-level receivers x elements with malformed attributes (name-value / bare / brace / bracket bodies, missing commas, stray punctuation, literals as names), unions, empty enums, mistakes at every level; c16m / c02 / c09: mistakes in element-level and FromMeta receivers; c12 / c13 / c11 / c14: every built-in conversion (567 wrapper compositions, 54 syntax types, 24 integer types incl. numbers beyond every width, maps) on every item form incl. malformed list bodies; c18recv: supports(..) receivers x every body shape incl. unions; every answer is also judged directly: `(panic` is a violation even when the model agrees; distinct by case text",
+        "assumptions": ["user-supplied functions (`with`, `map`, `and_then`, Default impls) and hand-written FromMeta impls are parameters assumed to return", "`Error::multiple(vec![])`, the accumulator's drop bomb and other documented panics of the public error API are C05's subject, not entry points of parsing"],
+        "partial": "nesting depth is exercised to depth 3 by the streams; the theorems are depth-independent",
     },
     "C09": {
         "lean_modules": ["Darling.Props.C09"],
